@@ -65,7 +65,10 @@ RandAccepted(i) ==
       Num(RandomElement(1..99), 100), Num(RandomElement(1..99), 100), Num(RandomElement(1..99), 100),
       Num(RandomElement(1..99), 100), RandomElement(BOOLEAN))
 
-PctSweep == {[Default EXCEPT !.rb = Num(k, 100)] : k \in 1..99} \cup {[Default EXCEPT !.lb = Num(k, 100)] : k \in 1..99}
+\* seeds around 2^53 and 10^18: a float cannot tell neighbours apart, the file names must
+BigSeeds == {[seedtxt |-> t] @@ [Default EXCEPT !.seed = 1] :
+                t \in {"9007199254740992", "9007199254740993", "9007199254740995", "1000000000000000001", "4294967301"}}
+PctSweep == BigSeeds \cup {[Default EXCEPT !.rb = Num(k, 100)] : k \in 1..99} \cup {[Default EXCEPT !.lb = Num(k, 100)] : k \in 1..99}
             \cup {[Default EXCEPT !.tb = Num(k, 100)] : k \in 1..99} \cup {[Default EXCEPT !.lt = Num(k, 100)] : k \in 1..99}
 
 Cases ==
